@@ -102,7 +102,13 @@ def confirm(name):
         res["demo_fails_with_patch"] = rc != 0
         res["demo_output_tail"] = out[-600:]
         os.remove(demo_dst)
-        rc, out = sh("go test -vet=off -count=1 -timeout 25m ./...", cwd=wt, env=GOENV, timeout=2400)
+        import fcntl
+        with open("/tmp/conf/suite.lock", "w") as lk:  # the suite binds fixed ports: one run at a time
+            fcntl.flock(lk, fcntl.LOCK_EX)
+            rc, out = sh("go test -vet=off -count=1 -timeout 25m ./...", cwd=wt, env=GOENV, timeout=2400)
+            if rc != 0 and "bind: address already in use" in out or "dial" in out and "metrics_server_test" in out:
+                time.sleep(5)
+                rc, out = sh("go test -vet=off -count=1 -timeout 25m ./...", cwd=wt, env=GOENV, timeout=2400)
         res["suite_passes_with_patch"] = rc == 0 and "FAIL" not in out
         if not res["suite_passes_with_patch"]:
             res["suite_tail"] = out[-1500:]
